@@ -398,6 +398,7 @@ class C14_add_special(Lemma):
                  'B.pos_bound': 'RealFloat | PosInf', 'B.neg_bound': 'RealFloat | NegInf'}
     split = ['A.prec', 'A.exp', 'A.pos_bound', 'A.neg_bound']
     properties = ['C14']
+    no_use = ['RealFloat___add__', 'RealFloat___radd__', 'RealFloat___rsub__', 'RealFloat___neg__']      # float operands (unbounded bounds) are inlined, not taken from the C05 contracts (symbolic float results)
     options = {'light_first': True, 'theory_light': True}
 
     def pre(A, B, a, b):
@@ -457,6 +458,7 @@ class C14_sub_special(Lemma):
                  'B.pos_bound': 'RealFloat | PosInf', 'B.neg_bound': 'RealFloat | NegInf'}
     split = ['A.prec', 'A.exp', 'A.pos_bound', 'A.neg_bound']
     properties = ['C14']
+    no_use = ['RealFloat.__sub__', 'RealFloat___add__', 'RealFloat___radd__', 'RealFloat___rsub__', 'RealFloat___neg__']      # x - y inlined as x + (-y): the C05 contract of __sub__ (added later) does not give the result exponent
     options = {'light_first': True, 'theory_light': True}
 
     def pre(A, B, a, b):
@@ -485,6 +487,7 @@ class C14_sub_finite(Lemma):
                  'B.pos_bound': 'RealFloat | PosInf', 'B.neg_bound': 'RealFloat | NegInf'}
     split = ['A.prec', 'A.exp', 'A.pos_bound', 'A.neg_bound']
     properties = ['C14']
+    no_use = ['RealFloat.__sub__']      # x - y inlined as x + (-y): the C05 contract of __sub__ (added later) does not give the result exponent
     options = {'light_first': True, 'theory_light': True}
 
     def pre(A, B, a, b):
@@ -549,7 +552,9 @@ class C14_add_prec(Lemma):
                  'B.pos_bound': 'RealFloat | PosInf', 'B.neg_bound': 'RealFloat | NegInf'}
     split = ['A.prec', 'A.exp', 'A.pos_bound', 'A.neg_bound']
     properties = ['C14']
-    options = {'light_first': True, 'bounded_fallback': 8, 'bounded_ms': 30000}
+    # superseded by C14x_add_prec / C14x_sub_prec (contracts/c14x_prec.py: complete, no bounded fallback, ~2 s per case);
+    # this formulation needs > 300 s per case and runs in the thorough tier only
+    options = {'light_first': True, 'bounded_fallback': 8, 'bounded_ms': 30000, 'symbolic_tier': 'thorough'}
 
     def pre(A, B, a, b):
         g = GRID()
@@ -578,7 +583,10 @@ class C14_sub_prec(Lemma):
                  'B.pos_bound': 'RealFloat | PosInf', 'B.neg_bound': 'RealFloat | NegInf'}
     split = ['A.prec', 'A.exp', 'A.pos_bound', 'A.neg_bound']
     properties = ['C14']
-    options = {'light_first': True, 'bounded_fallback': 8, 'bounded_ms': 30000}
+    no_use = ['RealFloat.__sub__']      # x - y inlined as x + (-y): the C05 contract of __sub__ (added later) does not give the result exponent
+    # superseded by C14x_add_prec / C14x_sub_prec (contracts/c14x_prec.py: complete, no bounded fallback, ~2 s per case);
+    # this formulation needs > 300 s per case and runs in the thorough tier only
+    options = {'light_first': True, 'bounded_fallback': 8, 'bounded_ms': 30000, 'symbolic_tier': 'thorough'}
 
     def pre(A, B, a, b):
         g = GRID()
